@@ -248,7 +248,8 @@ func c08(c *ctx) {
 						c.run.Violate("gofmt:"+id, fmt.Sprintf("the file generated with %v is not in canonical gofmt form: %s", v.opts, firstDiff(j.GenOut, f)), w(map[string]any{"first_difference": firstDiff(j.GenOut, f)}))
 					} else {
 						c.run.Count("packages_ok", 1)
-						h := shaHex(j.GenOut[bytes.IndexByte(j.GenOut, '\n')+1:])
+						// distinct emitted files: header line dropped, package name normalised (it differs per variant by construction)
+						h := shaHex(bytes.ReplaceAll(j.GenOut[bytes.IndexByte(j.GenOut, '\n')+1:], []byte(j.Pkg), []byte("PKG")))
 						if !seenOut[h] {
 							seenOut[h] = true
 							c.run.Nontrivial(h)
@@ -268,7 +269,7 @@ func c08(c *ctx) {
 	}
 	requireCov(c, "packages_ok", "grammars_many", "grammars_no", "grammars_surface", "grammars_profile", "grammars_warned")
 	c.run.Rule = "cases: grammars from all profiles plus a surface profile (user imports single/several/grouped/aliased/duplicating runtime imports/sorting differently with and without alias — each used by the parser state so that they are needed; header comments with # and // and blank-line runs; state with nested braces; literals and classes over NUL, control, quote, bracket, dash, caret, backslash, Latin-1, U+2028, non-BMP and U+10FFFF characters; actions, state changes and predicates containing /* */ and // comments, '*/' in strings, nested braces, raw strings; grammars without any terminal; captures nobody reads; actions without capture; grammars accepted with warnings only: unused rules, undefined names, left recursion) and grammars of 130-430 rules plus exact boundary sizes (126-128 rules = 253-257 rule ids; more in thorough) (x1-3 actions each: beyond 255 rule ids; in the thorough tier one 33 000-rule grammar with 66 001 rule ids is generated and checked for syntax, 32-bit rule type and gofmt form but not compiled — the Go compiler needs hours for it); each generated with the real peg under all eight -inline/-switch/-noast combinations. " +
-		"Oracle: exit 0, empty stderr (warnings only for the warned kind), the file compiles together with a file that uses the public API, and go/format.Source(file) == file. distinct_nontrivial = distinct emitted files (sha256 below the header line) that passed."
+		"Oracle: exit 0, empty stderr (warnings only for the warned kind), the file compiles together with a file that uses the public API, and go/format.Source(file) == file. distinct_nontrivial = distinct emitted files (sha256 below the header line, package name normalised) that passed; the same grammar often yields the same file under several option sets."
 	c.run.Assume("rule names R<n>/H<n>..., actions are valid Go; predicates are Go expressions (a trailing // comment inside a predicate is not an expression and is not generated); actions use text only in grammars with a capture")
 }
 
